@@ -1,6 +1,6 @@
 (* Model of codebasin/report.py : extract_platforms, coverage, average_coverage,
    distance, divergence  (the repaired code: distance returns NaN on an empty
-   union and accumulates integers before its single division).
+   union; as in the code it adds count/total row by row).
    Definitions only; proofs are in Proofs/C07*.v.
 
    A setmap (dict frozenset[str] -> int, insertion ordered) is an association
@@ -64,24 +64,30 @@ Definition osum (l : list (option Q)) : option Q := fold_left oadd l (Some 0%Q).
 Definition odiv_n (s : option Q) (n : nat) : option Q :=
   match s with Some x => Some (x / inject_Z (Z.of_nat n))%Q | None => None end.
 
-Definition average_coverage (t : table) (arg : option (list string)) : option Q :=
-  let ps := sel_platforms t arg in
+Definition average_on (t : table) (ps : list string) : option Q :=
   match ps with
   | [] => None                                               (* len(platforms) == 0 *)
   | _ => odiv_n (osum (map (fun p => coverage_on t [p]) ps)) (length ps)
   end.
 
+Definition average_coverage (t : table) (arg : option (list string)) : option Q :=
+  average_on t (sel_platforms t arg).
+
 (* first loop of distance *)
 Definition dist_total (t : table) (p q : string) : Z :=
   fold_left (fun acc r => if mem p (fst r) || mem q (fst r) then acc + snd r else acc) t 0.
-(* second loop of distance: integer accumulation *)
-Definition dist_diff (t : table) (p q : string) : Z :=
-  fold_left (fun acc r => if xorb (mem p (fst r)) (mem q (fst r)) then acc + snd r else acc) t 0.
+(* second loop of distance:  d = 0; d += count / float(total)  row by row.
+   [Qred] keeps the representation of the running rational in lowest terms (it is
+   the identity on rationals as values, Qred_correct); without it the extracted
+   model multiplies the denominator by total at every row. *)
+Definition dist_frac (t : table) (p q : string) (total : Z) : Q :=
+  fold_left (fun (acc : Q) (r : row) =>
+               if xorb (mem p (fst r)) (mem q (fst r)) then Qred (acc + inject_Z (snd r) / inject_Z total)%Q else acc) t 0%Q.
 
 Definition distance (t : table) (p q : string) : option Q :=
   let total := dist_total t p q in
   if total =? 0 then None                                    (* the repaired empty-union case *)
-  else Some (inject_Z (dist_diff t p q) / inject_Z total)%Q.
+  else Some (dist_frac t p q total).
 
 (* it.combinations(platforms, 2), in its order *)
 Fixpoint pairs {A} (l : list A) : list (A * A) :=
